@@ -5,6 +5,7 @@ use serde_json::Value;
 use std::sync::Arc;
 
 pub mod c03;
+pub mod c05;
 pub mod kit;
 pub mod langkit;
 pub mod rules;
@@ -18,6 +19,7 @@ pub struct Prop {
 pub fn lookup(id: &str) -> Option<Prop> {
     Some(match id {
         "C03" => Prop { level: "model_checking", run: c03::run, replay: c03::replay },
+        "C05" => Prop { level: "model_checking", run: c05::run, replay: c05::replay },
         "C06" => Prop { level: "model_checking", run: rules::run_c06, replay: rules::replay_c06 },
         "C07" => Prop { level: "model_checking", run: rules::run_c07, replay: rules::replay_c07 },
         "C08" => Prop { level: "model_checking", run: rules::run_c08, replay: rules::replay_c08 },
